@@ -23,6 +23,26 @@ type Case struct {
 	P        wh.RediffParams `json:"params"`
 }
 
+// optimizeWatchdog: the largest optimizer run of this check takes well under a second.
+const optimizeWatchdog = 120 * time.Second
+
+// once a hang has been seen the remaining cases of this worker get a short leash (they
+// only add examples to a failure that is already reported)
+var hangsSeen int
+
+func watchdogNow() time.Duration {
+	if hangsSeen > 0 {
+		return 10 * time.Second
+	}
+	return optimizeWatchdog
+}
+
+// rethrown carries a panic of the optimizer goroutine (with its stack) to the case goroutine.
+type rethrown struct {
+	val   interface{}
+	stack string
+}
+
 func main() {
 	runner.Main(runner.Config{
 		ID:    "C07",
@@ -327,7 +347,11 @@ func body(w *runner.W) {
 		func() {
 			defer func() {
 				if e := recover(); e != nil {
-					site := runner.PanicSite(string(debug.Stack()))
+					stack := string(debug.Stack())
+					if rt, ok := e.(rethrown); ok {
+						e, stack = rt.val, rt.stack
+					}
+					site := runner.PanicSite(stack)
 					pfp = "panic:" + site
 					pmsg = fmt.Sprintf("Optimize panicked: %v", e)
 					if strings.Contains(fmt.Sprint(e), "integer divide by zero") && site == "bsdiff.(*DiffContext).Do" {
@@ -339,10 +363,38 @@ func body(w *runner.W) {
 					}
 				}
 			}()
-			var err error
-			opt, _, err = wh.Rediff(b.patch, oldDir, newDir, c.P)
-			if err != nil {
-				pfp, pmsg = "optimize-error", err.Error()
+			// the optimizer must terminate: it runs on its own goroutine and is given up
+			// after optimizeWatchdog (a stuck call is left behind, it holds no lock of ours)
+			type res struct {
+				opt   []byte
+				err   error
+				pval  interface{}
+				stack string
+			}
+			done := make(chan res, 1)
+			go func() {
+				var rs res
+				defer func() {
+					if e := recover(); e != nil {
+						rs.pval, rs.stack = e, string(debug.Stack())
+					}
+					done <- rs
+				}()
+				rs.opt, _, rs.err = wh.Rediff(b.patch, oldDir, newDir, c.P)
+			}()
+			select {
+			case rs := <-done:
+				if rs.pval != nil {
+					panic(rethrown{rs.pval, rs.stack})
+				}
+				opt = rs.opt
+				if rs.err != nil {
+					pfp, pmsg = "optimize-error", rs.err.Error()
+				}
+			case <-time.After(watchdogNow()):
+				hangsSeen++
+				pfp = "hang:optimize"
+				pmsg = fmt.Sprintf("the optimizer did not return within %v (partitions %d, suffix-sort concurrency %d, force %v, limit %d)", optimizeWatchdog, c.P.Partitions, c.P.Concurrency, c.P.ForceMapAll, c.P.SizeLimit)
 			}
 		}()
 		if pfp != "" {
@@ -459,6 +511,34 @@ func body(w *runner.W) {
 			}
 		}
 		seqSub.Done()
+	}
+
+	// suffix-sort concurrency in full product with the partition count (the other
+	// sub-checks cycle through {0,1,-1} only): every value -1..17 x Partitions 0..16 on a
+	// handful of pairs whose old file is longer than any partition count
+	concSub := runner.NewSub(w, "suffix-sort-concurrency", run, runner.Journal())
+	if concSub.Active() {
+		ps := []pair{
+			{o: wh.Build{wh.F("a", lit(pat))}, n: wh.Build{wh.F("a", lit(flip(pat, 11)))}},
+			{o: wh.Build{wh.F("a", lit(pat))}, n: wh.Build{wh.F("b", lit(pat[:20]+"y"+pat[28:]))}},
+			{o: wh.Build{wh.F("a", lit(pat[:17])), wh.F("z", lit(pat))}, n: wh.Build{wh.F("a", lit(pat[:16]+"xy")), wh.F("z", lit(pat[:30]))}},
+			{o: wh.Build{wh.F("a", "A.B.=tail")}, n: wh.Build{wh.F("a", "A.=x.B.=tail")}},
+		}
+		concSub.Note("pairs", len(ps))
+		n := 0
+		for pi, p := range ps {
+			for part := 0; part <= 16; part++ {
+				for conc := -1; conc <= 17; conc++ {
+					n++
+					if w.Quick() && pi >= 2 && (part+conc)%3 != 0 {
+						continue
+					}
+					concSub.Do(Case{Old: p.o, New: p.n, DiffComp: dcomps[pi%3], P: wh.RediffParams{
+						Partitions: part, Concurrency: conc, ForceMapAll: true, Comp: ocomps[n%4]}})
+				}
+			}
+		}
+		concSub.Done()
 	}
 
 	blockSub := runner.NewSub(w, "block-level", run, runner.Journal())
